@@ -2,11 +2,12 @@
    ExtrOcamlBasic only; nat, Z, positive, Q stay Coq datatypes. *)
 Require Extraction.
 Require Import ExtrOcamlBasic.
-From TV Require Import Model.IndexSets Model.GridState Model.RuleLocal.
+From TV Require Import Model.IndexSets Model.GridState Model.RuleLocal Model.Selection.
 Extraction Language OCaml.
 Set Extraction Optimize.
 Extraction "../ocaml/gen/core.ml"
   cmp merge diff addValues lookup getSlot sort_unique removeIndex mem
   GridState.step GridState.run
   getNumPoints getMaxNumKids getMaxNumParents getParent getStepParent getKid getLevel
-  getNode getSupport scaleDiffX scaleX evalRaw evalSupport diffSupport.
+  getNode getSupport scaleDiffX scaleX evalRaw evalSupport diffSupport
+  classic_candidates.
